@@ -12,7 +12,7 @@ LEVEL_TEXT = ("Generated runs ending in every way (result, step failure, non-eve
 LEVEL_NOTE = "Trusted: virtual clock quiescence detection, instrumentation shim; the consumer is the real handler.stream_events(expose_internal=True)."
 DESIGN_REF = "§5 C04"
 RULE = "case = generated program (outcomes / fan / wait families) + schedule; distinct = tick-order signature hash; non-trivial = the run finished"
-REQUIRED_REACH = ["finished_run", "outcome_result", "outcome_failed", "outcome_cancelled", "outcome_timeout", "family_outcomes", "family_syncfan", "late_stream_consumer"]
+REQUIRED_REACH = ["finished_run", "outcome_result", "outcome_failed", "outcome_cancelled", "outcome_timeout", "family_outcomes", "family_syncfan", "late_stream_consumer", "verbose_workflow"]
 ASSUMPTIONS = ["hostile retry code is limited to: next() raising, returning a str / NaN / negative number, predicate raising"]
 FAMILIES = [("outcomes", 4), ("fan", 1), ("wait", 1), ("syncfan", 1)]
 
@@ -44,6 +44,9 @@ def run_shard(shard):
             # the stream consumer starts late: shortly after the start, in the middle, or long after the run has ended
             case["spec"]["consumer_delay"] = rnd.choice([0.3, 2, 50])
             acc.hit("late_stream_consumer")
+        if rnd.random() < 0.15:
+            case["spec"]["verbose"] = True
+            acc.hit("verbose_workflow")
         engine_check.run_one(case, acc, _oracles(), _nontrivial)
     return acc.to_dict()
 
